@@ -1,11 +1,11 @@
 #!/bin/sh
 # usage: lib/seed6.sh <ID> [check-id ...]   (round-6 intake: copy the agent's SEED dir, verify the demo in a fresh worktree, run the checks)
 id="$1"; shift
-src=/tmp/s6/$id
-dst=/verif/seeded/$id.6
+src=/tmp/${SROUND:-s6}/$id
+dst=/verif/seeded/$id.${SNUM:-6}
 mkdir -p "$dst"
 cp "$src"/SEED/* "$dst"/ 2>/dev/null
-demo=$(cd "$src" && git status --porcelain --untracked-files=all | awk '{print $2}' | grep -E "zz_seed6_.*_test.go$" | grep -v "^SEED/" | head -1)
+demo=$(cd "$src" && git status --porcelain --untracked-files=all | awk '{print $2}' | grep -E "zz_seed${SNUM:-6}_.*_test.go$" | grep -v "^SEED/" | head -1)
 pkg=$(dirname "$demo")
 echo "demo=$demo pkg=$pkg"
 # the patch must only touch non-test files
@@ -13,6 +13,6 @@ grep -E "^\+\+\+ " "$dst/patch.diff"
 run=$(grep -h -o -E "func (Test[A-Za-z0-9_]+)" "$src/$demo" | awk '{print $2}' | paste -sd'|')
 /verif/lib/seedverify.sh "$dst/patch.diff" "$src/$demo" "$pkg" "^($run)\$" 2>&1 | tee "$dst/verify.txt"
 for c in "${@:-$id}"; do
-  echo "=== check $c against $id.6"
+  echo "=== check $c against $id.${SNUM:-6}"
   /verif/lib/muttest.sh "$dst/patch.diff" "$c" quick 2>&1 | tee "$dst/check_$c.txt"
 done
